@@ -406,7 +406,7 @@ def run_daemon(desc):
         if d.proc is not None and d.proc.poll() is not None:
             res.violation('C10/daemon:process-exits', f'the daemon exited (rc {d.proc.poll()}): {str(e)[:200]}', {'log': d.tail(2000)}, 'daemon')
         else:
-            res.inconclusive.append('daemon: ' + str(e)[:300])
+            daemon.skipped(res, str(e))
     finally:
         try:
             if peer is not None:
